@@ -42,3 +42,44 @@ func H_C04_lossless() {
 	vAssert(s == string(c), "lossless:concat")
 	vDone()
 }
+
+// H_C04_symbols: buffers made of K registered multi-character symbols (same instance reads them
+// all), optionally separated by a letter, a space or '=': token values still concatenate to the input.
+func H_C04_symbols() {
+	kind := tokKind()
+	var pool []string
+	switch kind {
+	case tkGeneric:
+		pool = []string{"<>", "<=", ">="}
+	case tkExpression:
+		pool = []string{"<=", ">=", "<>", "!=", ">>", "<<"}
+	case tkCsv:
+		pool = []string{"\r\n", "\n\r", "\n", "\r"}
+	default:
+		pool = []string{"{{", "}}", "{{{", "}}}"}
+	}
+	K := vParam("K")
+	var input []rune
+	for i := 0; i < K; i++ {
+		input = append(input, []rune(pool[vChoice("symbol", len(pool))])...)
+		switch vChoice("sep", 4) {
+		case 1:
+			input = append(input, 'a')
+		case 2:
+			input = append(input, ' ')
+		case 3:
+			input = append(input, '=')
+		}
+	}
+	t := newTokenizer(kind)
+	toks := t.TokenizeBuffer(string(input))
+	s := ""
+	for i, tok := range toks {
+		s += tok.Value()
+		if i < len(toks)-1 {
+			vAssert(tok.Value() != "", "symbols:token-nonempty")
+		}
+	}
+	vAssert(s == string(input), "symbols:concat")
+	vDone()
+}
